@@ -95,10 +95,11 @@ func C15(c *Ctx) {
 	c.Harnesses = append(c.Harnesses, "generated zz_verif_spec.go:VerifInterleave")
 	c.Explanation += " Interleaving on distinct contexts is explored at the granularity of semantic actions: the harness starts a complete parse on a fresh context from inside a solver-chosen reduction of another parse and requires both outcomes to equal the solo runs; the set of package-level variables written during an object-mode parse is recorded as a note."
 	iv := []string{"go", "go-o"} // the two driver texts: nested through PushContex/PopContex resp. on a second context
+	ix := nx + 1
 	if c.Thorough() {
-		iv = GoVariants
+		ix = nx // 3+2 (4+2 on four variants did not finish within an hour)
 	}
-	runGenEntry(c, "C15", "VerifInterleave", []int{nx + 1, ny}, iv, []string{"interleaved"}, small)
+	runGenEntry(c, "C15", "VerifInterleave", []int{ix, ny}, iv, []string{"interleaved"}, small)
 	// induction step for histories of any length: from arbitrary stack contents
 	D := 3
 	if c.Thorough() {
